@@ -406,7 +406,7 @@ def one(ctx, rng, ninputs):
 
 def plan(tier, seed):
     quick = tier == "quick"
-    return {"nshards": 16, "params": {"soft_s": 600 if quick else 1800, "nprograms": 40 if quick else 450, "ninputs": 6 if quick else 12}, "hard_timeout_s": 1200 if quick else 4000}
+    return {"nshards": 16, "params": {"soft_s": 1500 if quick else 5400, "nprograms": 40 if quick else 450, "ninputs": 6 if quick else 12}, "hard_timeout_s": 2700 if quick else 9000}
 
 
 def shard(ctx):
